@@ -89,6 +89,8 @@ type Gen struct {
 	safetyN  map[string]int
 	siteN    map[string]int
 	panicsNever bool
+	stdTagUsed  bool
+	nonStdTags  map[int]bool
 	entryParams map[string]*Value
 	extraAxioms []string
 	usedSpec  map[string]bool
@@ -125,9 +127,9 @@ func newGen(w *World, fn *ssa.Function, fc *FuncContract) *Gen {
 		g.short = shortFuncName(fn)
 	}
 	g.decl("(declare-fun strlen (Int) Int)")
-	g.decl("(declare-fun bytesval ((Array Int (Array Int Int)) Int Int Int) Int)")
+	g.decl("(declare-fun bytesval ((Array Int Int) Int Int) Int)")
 	g.decl("(declare-fun implements (Int Int) Bool)")
-	g.extraAxioms = append(g.extraAxioms, "(forall ((e (Array Int (Array Int Int))) (o Int) (f Int)) (! (= (bytesval e o f 0) 0) :pattern ((bytesval e o f 0))))")
+	g.extraAxioms = append(g.extraAxioms, "(forall ((e (Array Int Int)) (f Int)) (! (= (bytesval e f 0) 0) :pattern ((bytesval e f 0))))")
 	return g
 }
 
@@ -552,6 +554,21 @@ func (g *Gen) typeID(t types.Type) string {
 	}
 	id := len(g.typeIDs) + 1
 	g.typeIDs[k] = id
+	// types declared in a package with a dotted import path (the module and its dependencies) are not standard-library types
+	b := types.Unalias(t)
+	for {
+		if p, ok := b.(*types.Pointer); ok {
+			b = types.Unalias(p.Elem())
+			continue
+		}
+		break
+	}
+	if n, ok := b.(*types.Named); ok && n.Obj().Pkg() != nil && strings.Contains(n.Obj().Pkg().Path(), ".") {
+		if g.nonStdTags == nil {
+			g.nonStdTags = map[int]bool{}
+		}
+		g.nonStdTags[id] = true
+	}
 	return strconv.Itoa(id)
 }
 
